@@ -58,8 +58,19 @@ func C02() int {
 				it := base[i]
 				for r := 0; r < k; r++ {
 					mode := modes[(i+r)%len(modes)]
-					t2 := gg.Reassign(it.Tree, gen.ReassignOpts{Mode: mode, Numbers: f.N, Bools: f.B, Remote: f.I, LongLen: 20000})
 					st := []jt.Style{jt.Plain, jt.GoLike, jt.Unicode}[(i+r)%3]
+					if (i+r)%9 == 4 {
+						// "echo": a NON-sensitive text of the line (the server's error message, the application
+						// name) quotes a value that is sensitive elsewhere in member A; member B carries the same
+						// text but other sensitive values. The text belongs to both lines, so it must come out the
+						// same in both (whatever the tool does with it).
+						if ta := c02Echo(it.Tree); ta != nil {
+							it = Item{Case: it.Case, Tree: ta, Raw: ta.Bytes(st)}
+							mode = gen.Fresh
+							c.Count("echo_pairs", 1)
+						}
+					}
+					t2 := gg.Reassign(it.Tree, gen.ReassignOpts{Mode: mode, Numbers: f.N, Bools: f.B, Remote: f.I, LongLen: 20000})
 					b := Item{Case: it.Case, Tree: t2, Raw: t2.Bytes(st)}
 					if len(b.Raw) > 60000 {
 						continue
@@ -147,4 +158,26 @@ func C02() int {
 	c.Assume("class membership is kept by construction: e-mail members come from a conservative sub-grammar, ordinary strings contain no '@' and never start with '$'")
 	c.Assume("numbers / booleans / attr.remote are re-drawn only under -n / -b / -i (they are legitimately visible otherwise)")
 	return c.Finish("for each grammar line L and flag set, k re-assignments L' of all sensitive leaves within their class (fresh, all-equal, metacharacter-heavy, one 20 000-character value, 1-character values); redact(L) and redact(L') are compared as bytes; a pair is non-trivial when at least one leaf actually changed, distinct by L'+flags")
+}
+
+// c02Echo returns a copy of the line in which attr.errMsg and attr.appName (both outside the
+// query-bearing fields) quote the first sensitive string of the line; nil when there is none.
+func c02Echo(tree *jt.Node) *jt.Node {
+	t := tree.Clone()
+	attr := t.Get("attr")
+	if attr == nil || attr.K != jt.Obj {
+		return nil
+	}
+	v := ""
+	t.Walk(nil, func(_ []string, n *jt.Node) {
+		if v == "" && n.T != nil && n.T.Role == jt.Sens && n.K == jt.Str && len(n.S) >= 4 && len(n.S) < 200 {
+			v = n.S
+		}
+	})
+	if v == "" {
+		return nil
+	}
+	attr.Set("errMsg", jt.StrN("E11000 duplicate key error collection: shop.users index: k_1 dup key: { k: \""+v+"\" }").With(&jt.Tag{Role: jt.Keep}))
+	attr.Set("appName", jt.StrN(v).With(&jt.Tag{Role: jt.Keep}))
+	return t
 }
